@@ -93,25 +93,25 @@ theorem arity_error_no_change (c : Ctx) (s : State) :
 /-- numeric-looking text is rewritten: SET k 007; GET k answers 7 -/
 theorem numeric_text_rewritten_witness :
     let c : Ctx := { db := 0, now := 1000 }
-    ((handleGet c [b "get", b "k"]).run c ((handleSet c [b "set", b "k", b "007"]).run c ⟨[], 0⟩).1).2
+    ((handleGet c [b "get", b "k"]).run c ((handleSet c [b "set", b "k", b "007"]).run c { dbs := [], mem := 0 }).1).2
       = .done (.ok (b "+7\r\n")) := by decide
 
 /-- RENAME k k deletes the key -/
 theorem rename_self_deletes_witness :
     let c : Ctx := { db := 0, now := 1000 }
-    let s : State := ⟨[(0, ⟨[(b "k", ⟨.str (b "v"), none⟩)], []⟩)], 57⟩
+    let s : State := { dbs := [(0, ⟨[(b "k", ⟨.str (b "v"), none⟩)], []⟩)], mem := 57 }
     ((handleRename c [b "rename", b "k", b "k"]).run c s).1.lookup 0 (b "k") = none := by decide
 
 /-- GETRANGE with start beyond the string panics -/
 theorem getrange_panics_witness :
     let c : Ctx := { db := 0, now := 1000 }
-    let s : State := ⟨[(0, ⟨[(b "k", ⟨.str (b "abc"), none⟩)], []⟩)], 60⟩
+    let s : State := { dbs := [(0, ⟨[(b "k", ⟨.str (b "abc"), none⟩)], []⟩)], mem := 60 }
     ((handleSubStr c [b "getrange", b "k", b "5", b "10"]).run c s).2 = .panic "slice bounds out of range" := by decide
 
 /-- a stale key is still "there": SET k v NX is refused on a key whose deadline has passed -/
 theorem stale_key_refuses_nx_witness :
     let c : Ctx := { db := 0, now := 2000 }
-    let s : State := ⟨[(0, ⟨[(b "k", ⟨.str (b "old"), some 1500⟩)], [b "k"]⟩)], 59⟩
+    let s : State := { dbs := [(0, ⟨[(b "k", ⟨.str (b "old"), some 1500⟩)], [b "k"]⟩)], mem := 59 }
     ((handleSet c [b "set", b "k", b "new", b "nx"]).run c s).2 = .done (.err (b "key k already exists")) := by decide
 
 end Sugar.Props.C01
